@@ -55,6 +55,21 @@ Proof. exact method_known_exact. Qed.
 Theorem C01_method_roundtrip : forall tok, method_name (method_of tok) = tok.
 Proof. exact method_name_of. Qed.
 
+Theorem C01_method_parse_print : forall tok rest,
+  tok <> [] -> forallb is_token_char tok = true -> stops is_token_char rest ->
+  method_parse (method_name (method_of tok) ++ rest) = Some (method_of tok, rest).
+Proof. exact method_parse_print. Qed.
+
+Theorem C01_method_parse_whole_token : forall s m rest,
+  method_parse s = Some (m, rest) ->
+  exists tok, s = tok ++ rest /\ tok <> [] /\ forallb is_token_char tok = true /\ stops is_token_char rest /\ m = method_of tok.
+Proof. exact method_parse_whole. Qed.
+
+Example C01_example_method_parse :
+  method_parse (B"INVITE.v2 sip:bob@example.org SIP/2.0") = Some (MOther (B"INVITE.v2"), B" sip:bob@example.org SIP/2.0") /\
+  method_parse (B"X-PING") = Some (MOther (B"X-PING"), []) /\ method_parse (B"BYE\r") = Some (MKnown 3, B"\r") /\ method_parse (B" BYE") = None.
+Proof. vm_compute. repeat split. Qed.
+
 Example C01_example_methods :
   method_of (B"INVITE") = MKnown 0 /\ method_of (B"INVITEX") = MOther (B"INVITEX") /\ method_of (B"invite") = MOther (B"invite") /\
   method_of (B"BYE") = MKnown 3 /\ method_of (B"BYEBYE") = MOther (B"BYEBYE").
